@@ -388,16 +388,20 @@ class Gen:
             items.insert(r.randint(0, len(items)), ("version", ver))
             doc = dict(items)
         ftypes = {}
+        trusted = r.random() < 0.2
+        # direct_trusted_mapping takes its shortcut (from_trusted_data, no constructor) only for classes whose fields
+        # are all "simple": in most trusted cases no field is an Anything
+        all_typed = trusted and r.random() < 0.7
         # in about half of the cases some of the keys the history works on are NOT fields of the class
         undeclared_p = 0.45 if r.random() < 0.5 else 0.0
         for k in TOP_KEYS:
             q = r.random()
             if r.random() < undeclared_p:
                 ftypes[k] = "undeclared"
-            elif q < 0.8:
+            elif q < 0.8 and not all_typed:
                 ftypes[k] = "any"
             else:
-                ftypes[k] = {"a": "int", "b": "str", "c": "sub", "d": "subs"}.get(k, "any")
+                ftypes[k] = {"a": "int", "b": "str", "c": "sub", "d": "subs"}.get(k, "int" if all_typed else "any")
         keep = r.choice([None, None, True, True, True, False, False])      # keep_undefined: default / True / False
         addl = r.choice([None, None, True, False, False])                  # _additional_properties: unset / True / False
         sub_undeclared = r.random() < 0.3                                  # nested class does not declare key "a"
@@ -409,8 +413,8 @@ class Gen:
         if r.random() < 0.3:
             kw["version"] = r.choice([1, n + 1, n + 5, 0])
         return {"ms": ms, "doc": enc(doc), "splits": list(range(0, n + 1)) + ([n + 2] if r.random() < 0.1 else []),
-                "ftypes": ftypes, "hasAttr": has_attr, "kw": enc(kw), "trusted": r.random() < 0.2,
-                "keep": keep, "addl": addl, "subUndeclared": sub_undeclared}
+                "ftypes": ftypes, "hasAttr": has_attr, "kw": enc(kw), "trusted": trusted,
+                "keep": keep, "addl": addl, "subUndeclared": sub_undeclared, "subTyped": all_typed}
 
 
 def gen_cases(rng, tier, n):
@@ -515,9 +519,13 @@ def sorted_res(res):
 def make_classes(case, ms_objs):
     from typedpy import Anything, Array, Integer, PositiveInt, String, Structure, Versioned
 
-    sub_ns = {"x": Anything, "y": Anything, "z": Anything, "_required": []}
+    if case.get("subTyped"):
+        sub_ns = {"x": Integer, "y": String, "z": Integer, "_required": []}
+    else:
+        sub_ns = {"x": Anything, "y": Anything, "z": Anything, "_required": []}
     if not case.get("subUndeclared"):
-        sub_ns["a"] = Anything          # otherwise key "a" of sub-documents is an undeclared (additional) property
+        # otherwise key "a" of sub-documents is an undeclared (additional) property
+        sub_ns["a"] = String if case.get("subTyped") else Anything
     Sub = type("Sub", (Structure,), sub_ns)
 
     def field(t):
@@ -666,7 +674,7 @@ def _run(case, rec):
         return res
     _, res["deser_old"] = deser_outcome(V, doc, case)
     check_snap("deserialize(document)")
-    if not case["trusted"]:
+    if True:
         try:
             from .. import dump
             from . import construct as C
@@ -699,6 +707,7 @@ def line(case, impl):
     if "cls" in impl:
         l["cls"] = impl["cls"]
         l["plainCls"] = impl["plainCls"]
+        l["trusted"] = bool(case["trusted"])
     if "full" in impl:
         l["impl"] = {"full": sorted_res(impl["full"]), "again": sorted_res(impl["again"]),
                      "stages": [{"s1": sorted_res(s["s1"]), "s2": sorted_res(s["s2"])} for s in impl["stages"]]}
@@ -835,6 +844,8 @@ def correspondence(case, impl, model):
 def whole_diff(what, m, i):
     """model outcome (wire result of Sem/ConvertDeser) vs the real outcome"""
     from . import serde
+    if str(m.get("err", "")).startswith("outside-model"):
+        return None      # garbage documents the trusted-path model (Sem/Trusted.lean) declares outside its domain
     if "ok" in m:
         if "ok" not in i:
             return f"{what}: model returns an instance, real code raises {i.get('err')}: {i.get('msg')}"
